@@ -16,6 +16,7 @@ import (
 	"flag"
 	"fmt"
 	"io"
+	"os"
 	"reflect"
 	"strings"
 	"sync"
@@ -205,11 +206,19 @@ type stackRig struct {
 	done chan struct{}
 }
 
+// wrapLogging, when set, serves S through p9p.NewLogger: the logging wrapper must be
+// indistinguishable from the session it wraps (growth item: logging as a refinement of identity).
+var wrapLogging bool
+
 func newStackRig(capacity int) (*stackRig, error) {
 	cli, srv := gconn.Pair(capacity)
 	s := &recS{}
 	r := &stackRig{s: s, cli: cli, done: make(chan struct{})}
-	go func() { p9p.ServeConn(context.Background(), srv, p9p.SSession(s)); close(r.done) }()
+	var served p9p.Session = s
+	if wrapLogging {
+		served = p9p.NewLogger("", s)
+	}
+	go func() { p9p.ServeConn(context.Background(), srv, p9p.SSession(served)); close(r.done) }()
 	var err error
 	r.sess, err = p9p.CSession(context.Background(), cli)
 	return r, err
@@ -523,10 +532,20 @@ func Stack(args []string) {
 	out := fl.String("out", "", "result file")
 	rounds := fl.Int("rounds", 50, "calls per concurrent caller")
 	cycle := fl.Bool("cycle", true, "also run the Pipeline counterexample (unbuffered pipe)")
+	logging := fl.Bool("logging", false, "additionally run the sequential vectors with S wrapped in p9p.NewLogger")
 	fl.Parse(args)
 	res := hx.NewResult()
 	defer res.Write(*out)
 	stackSequential(*vec, res)
+	if *logging {
+		wrapLogging = true
+		devnull, _ := os.OpenFile(os.DevNull, os.O_WRONLY, 0)
+		saved := os.Stdout
+		os.Stdout = devnull // the wrapper logs every call to os.Stdout (captured at NewLogger time)
+		stackSequential(*vec, res)
+		os.Stdout = saved
+		wrapLogging = false
+	}
 	for _, n := range []int{2, 4, 8, 16, 32} {
 		stackConcurrent(n, 1<<20, *rounds, fmt.Sprintf("buffered-n%d", n), res)
 	}
